@@ -16,7 +16,7 @@ creation of the non-directory `p` after `ensureDir` of its parent; `leave p name
 `leaveDir` call of the second pass, where `--delete` removes unexpected entries.
 -/
 namespace Restic.Props.C20
-open Restic.Model.Filter Restic.Model.Select Restic.Proofs.C20 Restic.Proofs.Select Restic.Props.C28
+open Restic.Model.Filter Restic.Model.Select Restic.Proofs.C20 Restic.Proofs.Select Restic.Props.C28 Restic.Proofs.C28
 
 theorem take_ne_nil {p : List Str} {k : Nat} (h1 : 0 < k) (h2 : k < p.length) : p.take k ≠ [] := by
   intro h
@@ -83,7 +83,7 @@ theorem include_leave_has_names (glob : Glob) (lists : List PatList) (hv : Valid
     (h : Ev.leave p exp ∈ (trList (selectInclude glob lists) [] root).1)
     (hsel : (selectInclude glob lists p true).1 = true) : ∃ names, exp = some names := by
   have := tr_list_leave (selectInclude glob lists) [] root p exp h
-  exact this.2.2.2 (selectInclude_matched_child glob lists hv p hsel)
+  exact this.2.2.2.1 (selectInclude_matched_child glob lists hv p hsel)
 
 /-! ## exclude patterns -/
 
@@ -227,6 +227,120 @@ theorem include_delete_complete (glob : Glob) (lists : List PatList) (hv : Valid
   · intro h
     have hl : (e.take k).length = k := by rw [List.length_take]; omega
     rw [h] at hl; simp at hl; omega
+
+/-- `--delete` never removes an entry that bears the name of ANY node of the snapshot directory
+    it lies in — unselected nodes and sockets (which restore cannot recreate) included: the name
+    list handed to `removeUnexpectedFiles` is the full listing of the snapshot directory.
+    (`hsel`: a selected directory is traversed — true for exclude filters by definition and for
+    validated include filters by `selectInclude_matched_child`.) -/
+theorem delete_keeps_listed_names (sel : List Str → Bool → Bool × Bool) (root : List Node)
+    (hsel : ∀ p, (sel p true).1 = true → (sel p true).2 = true)
+    (pre : List (List Str)) (e : List Str) (h : e ∈ deletedTops sel (traverse sel root) pre) :
+    ∃ parent ns, (parent, ns) ∈ dirListings root ∧ e.length = parent.length + 1 ∧
+      isPrefix parent e = true ∧ ns.contains (e.getLast?.getD []) = false := by
+  rcases (deletedTops_iff sel _ pre e).mp h with ⟨ev, hev, p, exp, hd, _, h2, h3, h4, _⟩
+  unfold traverse at hev
+  generalize htr : trList sel [] root = r at hev
+  obtain ⟨evs, hr⟩ := r
+  simp only [List.mem_append, List.mem_cons, List.not_mem_nil, or_false] at hev
+  rcases hev with (hev | hev) | hev
+  · subst hev; simp [delDir] at hd
+  · -- a directory below the root
+    have hev' : ev ∈ (trList sel [] root).1 := by rw [htr]; exact hev
+    cases hexp : exp with
+    | some ns =>
+      rw [hexp] at hd h4
+      have := tr_list_deldir_names sel [] root ev p ns hev' hd
+      exact ⟨p, ns, List.mem_cons_of_mem _ this, h2, h3, h4⟩
+    | none =>
+      -- a nil name list only reaches `leaveDir` for a selected directory that was not traversed
+      exfalso
+      rw [hexp] at hd
+      cases ev with
+      | leave p' e' =>
+        simp only [delDir, Option.some.injEq, Prod.mk.injEq] at hd
+        rcases hd with ⟨rfl, rfl⟩
+        have hl := tr_list_leave sel [] root p' none hev'
+        have h1 := hl.2.2.2.2 rfl
+        rcases hl.2.2.2.1 (hsel p' h1) with ⟨ns, hns⟩
+        cases hns
+      | skipped p' e' =>
+        simp only [delDir, Option.some.injEq, Prod.mk.injEq] at hd
+        rcases hd with ⟨rfl, rfl⟩
+        -- `skippedDir` is only called for traversed directories, which always have a name list
+        exact absurd hev' (skipped_none_notin sel [] root p')
+      | enter p' => simp [delDir] at hd
+      | visit p' f' => simp [delDir] at hd
+  · split at hev
+    · simp only [List.mem_singleton] at hev; subst hev
+      simp only [delDir, Option.some.injEq, Prod.mk.injEq] at hd
+      rcases hd with ⟨rfl, rfl⟩
+      exact ⟨[], _, List.mem_cons_self, h2, h3, h4⟩
+    · simp only [List.mem_singleton] at hev; subst hev
+      simp only [delDir, Option.some.injEq, Prod.mk.injEq] at hd
+      rcases hd with ⟨rfl, rfl⟩
+      exact ⟨[], _, List.mem_cons_self, h2, h3, h4⟩
+
+/-! ## option collection (`CollectPatterns`) -/
+
+theorem validateAll_parsed (clean : Str → Str) (glob : Glob) (hg : G1 glob) (h3 : G3 glob) (raw : List Str)
+    (h : validateAll clean glob raw = true) : ValidPats glob (parsedOr clean raw) := by
+  unfold validateAll at h
+  unfold parsedOr
+  cases hp : parsePatterns clean raw with
+  | ok ps =>
+    rw [hp] at h
+    simp only at h ⊢
+    rw [List.all_eq_true] at h
+    exact ⟨hg, fun p hpm => noErr_of_valid glob h3 p (h p hpm), parsePatterns_parts_ne clean raw ps hp⟩
+  | err e => rw [hp] at h; cases h
+  | panic => rw [hp] at h; cases h
+  | fuel => rw [hp] at h; cases h
+
+/-- what `CollectPatterns` hands to the command: every case-sensitive list is validated (so the
+    C28 theorems apply to it) and consists of the flag values followed by the lines of the
+    case-sensitive pattern files; the case-insensitive list consists of the lower-cased flag values
+    followed by the lower-cased lines of the case-insensitive pattern files -/
+theorem collect_spec (clean : Str → Str) (glob : Glob) (hg : G1 glob) (h3 : G3 glob)
+    (o : PatternOpts) (lists : List PatList) (h : collectPatterns clean glob o = some lists) :
+    ∀ l ∈ lists,
+      (l.insensitive = false → ValidPats glob l.pats ∧ l.pats = parsedOr clean o.sens) ∧
+      (l.insensitive = true → l.pats = parsedOr clean (o.insens.map lowerStr)) := by
+  unfold collectPatterns at h
+  by_cases c1 : (!o.files.isEmpty && !validateAll clean glob (readPatternLines o.files)) = true
+  · rw [if_pos c1] at h; cases h
+  rw [if_neg c1] at h
+  by_cases c2 : (!o.ifiles.isEmpty && !validateAll clean glob (readPatternLines o.ifiles)) = true
+  · rw [if_pos c2] at h; cases h
+  rw [if_neg c2] at h
+  by_cases c3 : (!o.insens.isEmpty && !validateAll clean glob o.insens) = true
+  · rw [if_pos c3] at h; cases h
+  rw [if_neg c3] at h
+  by_cases c4 : (!o.sens.isEmpty && !validateAll clean glob o.sens) = true
+  · rw [if_pos c4] at h; cases h
+  rw [if_neg c4] at h
+  simp only [Option.some.injEq] at h
+  subst h
+  intro l hl
+  simp only [List.mem_append] at hl
+  rcases hl with hl | hl
+  · by_cases hi : o.insens.isEmpty = true
+    · rw [if_pos hi] at hl; simp at hl
+    · rw [if_neg hi] at hl
+      simp only [List.mem_singleton] at hl; subst hl
+      exact ⟨fun h => by simp at h, fun _ => rfl⟩
+  · by_cases hs : o.sens.isEmpty = true
+    · rw [if_pos hs] at hl; simp at hl
+    · rw [if_neg hs] at hl
+      simp only [List.mem_singleton] at hl; subst hl
+      refine ⟨fun _ => ⟨?_, rfl⟩, fun h => by simp at h⟩
+      apply validateAll_parsed clean glob hg h3
+      cases hv : validateAll clean glob o.sens with
+      | true => rfl
+      | false =>
+        exfalso; apply c4
+        have : o.sens.isEmpty = false := by simpa using hs
+        simp [this, hv]
 
 /-! ## tie T1: shape of the transcribed functions -/
 
